@@ -511,7 +511,9 @@ def check(prop, tier, only=None, keep=False):
         print("no obligations registered for %s at tier %s" % (prop, tier))
         return 2
     findings = load_findings()
-    known = [k for k in findings.get("known", []) if prop in k.get("properties", [k.get("property")])]
+    # a listed finding is identified by its id; an obligation that re-confirms it may also run under
+    # another property's tier
+    known = list(findings.get("known", []))
     scratch = make_scratch()
     ev_units = []
     pending = []
